@@ -220,6 +220,9 @@ pub fn pool(full: bool) -> Vec<V> {
             V::obj(&[("q", V::Int(2))]),
         ]),
         V::Int(1 << 31),
+        // the empty containers: every index is out of range, every window is empty
+        V::Arr(vec![]),
+        V::Obj(vec![]),
     ];
     if full {
         v.extend(vec![
@@ -257,14 +260,12 @@ pub fn pool(full: bool) -> Vec<V> {
             V::s("%FF"),
             V::s("%"),
             V::Date(2020, 2, 29),
-            V::Arr(vec![]),
             V::Arr(vec![V::Int(1)]),
             V::Arr((0..40).map(V::Int).collect()),
             V::Arr(vec![
                 V::Arr(vec![V::Int(1), V::Int(2)]),
                 V::Arr(vec![V::Int(3)]),
             ]),
-            V::Obj(vec![]),
             V::obj(&[("size", V::Int(7)), ("first", V::s("f"))]),
             V::Empty,
             V::Blank,
